@@ -419,14 +419,16 @@ theorem fold_stage_some (W : World) (hl : W.lim = false) {miss : Bool} {n : Name
           exact List.mem_map.2 ⟨p, hp, by simpa using hpe⟩
         simp [this]
       have hsem := tagSem_post W base (c := c) (c1 := c1) (u := vid) hfromV hi hvL hext1
-        (by rw [hact1, hlookx]) hs.prefix.tagNodup
-        ((countTagNames fds).map fun m => (m, Tagged.some (Value.uint64 (UInt64.ofNat computed.length))))
-        a.outs
+        (by rw [hact1, hlookx]) f.eid computed.length facts.inComp hcnt1 hs.tagNodup a.outs
       have hsem' : TagSem W f.fromVid c1
           ⟨(absL W base L c).tags ++ (countTagNames fds).map fun m =>
             (m, Tagged.some (Value.uint64 (UInt64.ofNat computed.length))), a.outs⟩
-          (TRefAt W vid L) := by rw [facts.from_]; exact hsem
-      have hpostsem := applyPostFilters_sem W f (TRefAt W vid L) c1 _ hsem' hcnt1
+          (TRefPost W vid L f.eid) := by
+        rw [facts.from_]
+        have := hsem
+        rw [facts.ct] at this
+        exact this
+      have hpostsem := applyPostFilters_sem W f (TRefPost W vid L f.eid) c1 _ hsem' hcnt1
         (countFilterPairs fds) f.post facts.post
       rw [hact1, ← ha] at hpostsem
       revert hpostsem
